@@ -198,16 +198,22 @@ def check_sibling_routes(idx: Index, rep: Report):
     b = idx.function(f"{BACKEND}::Backend._get_variance_from_frequencies")
 
     def preamble(f):
-        out = []
-        for s in f.node.body:
-            if isinstance(s, ast.Expr) and isinstance(s.value, ast.Constant):
-                continue
-            if isinstance(s, ast.For):
+        """what the part before the term loop decides, independent of how it is laid out (a try/finally around the call, a local for an argument): the route
+        predicates, the state-preparing simulate calls with their bound arguments, and what the two route variables are set to"""
+        tests, calls, sets = [], [], []
+        for s_ in f.node.body:
+            if isinstance(s_, ast.For):
                 break
-            if isinstance(s, ast.Assign) and isinstance(s.value, ast.Constant):
-                continue          # accumulator initialisation differs by name
-            out.append(full(s))
-        return out
+            for n_ in ast.walk(s_):
+                if isinstance(n_, ast.If):
+                    tests.append(norm(n_.test))
+                elif isinstance(n_, ast.Call) and norm(n_.func) == "self.simulate":
+                    calls.append(norm(n_.func) + "(" + ", ".join([norm(x) for x in n_.args] + sorted(f"{k.arg}={norm(k.value)}" for k in n_.keywords)) + ")")
+                elif isinstance(n_, ast.Assign) and any(norm(t) in ("initial_circuit", "updated_statevector") for t in n_.targets) and not isinstance(n_.value, ast.Call):
+                    sets.append(f"{norm(n_.targets[0])} = {norm(n_.value)}")
+                elif isinstance(n_, ast.Raise):
+                    sets.append("raise " + (norm(n_.exc.func) if isinstance(n_.exc, ast.Call) else norm(n_.exc) if n_.exc else ""))
+        return sorted(tests) + sorted(calls) + sorted(sets)
     pa, pb = preamble(a), preamble(b)
     rep.decide(pa == pb, rule, b, b.node, text="preamble of the frequency routes",
                what="expectation and variance prepare the state under the same predicate and with the same arguments",
